@@ -26,7 +26,8 @@ spec_def('post_reduce', ['x', 'sh', 'group', 'average', 'symmetric', 'e'],
          'if symmetric else (smul(1 / group_size(group), x) if average else x)')
 spec_def('reduced', ['v', 'sh', 'group', 'average', 'symmetric', 'e'],
          'post_reduce(allsum(triu(v, sh), group) if symmetric else allsum(v, group), sh, group, average, symmetric, e)')
-spec_def('sent_numel', ['sh', 'symmetric'], '(sh[0] * (sh[0] + 1)) // 2 if symmetric else numel(sh)')
+# elements on the wire: the packed upper triangle (tri_numel(n, n) = n(n+1)/2 elements, see get_triu) or the dense tensor
+spec_def('sent_numel', ['sh', 'symmetric'], 'tri_numel(sh[0], sh[1]) if symmetric else numel(sh)')
 spec_def('nothing_pending', ['tdc'], 'all(tdc._allreduce_buckets[g] is None for g in tdc._allreduce_buckets)')
 spec_def('is_square', ['sh'], 'len(sh) == 2 and sh[0] == sh[1]')
 
@@ -39,6 +40,8 @@ contract('kfac.distributed:get_triu', props=['C14', 'C08'], params={'tensor': T}
          raises=[('ValueError', 'len(tensor.shape) != 2 or tensor.shape[0] > tensor.shape[1]')],
          ensures=[('packed_upper_triangle', 'val(result) == triu(val(tensor), tensor.shape)'),
                   ('vector_of_the_triangle', 'len(result.shape) == 1 and result.shape[0] == tri_numel(tensor.shape[0], tensor.shape[1])'),
+                  ('n_times_n_plus_1_over_2_for_square[bounded]', 'implies(tensor.shape[0] == tensor.shape[1], '
+                                                                  'result.shape[0] == (tensor.shape[0] * (tensor.shape[0] + 1)) // 2)'),
                   ('same_dtype_device', 'result.dtype is tensor.dtype and result.device is tensor.device'),
                   ('a_new_tensor', 'is_fresh(result) and val(tensor) == old(val(tensor))')],
          modifies=['ghost:next_sid'])
@@ -86,6 +89,8 @@ contract(
         ('shape_and_dtype', 'implies(group_size(group) != 1, result.will_be.shape == old(tensor.shape) '
                             'and result.will_be.dtype is old(tensor.dtype) and result.will_be.device is old(tensor.device))'),
         ('one_event', 'implies(group_size(group) != 1, len(trace()) == len(old(trace())) + 1)'),
+        # C13: symmetric communication puts the packed triangle on the wire, dense communication the whole tensor
+        ('elements_sent', 'implies(group_size(group) != 1, trace()[len(trace()) - 1][3] == sent_numel(old(tensor.shape), symmetric))'),
         ('alone_nothing_changes', 'implies(group_size(group) == 1, val(tensor) == old(val(tensor)) and tensor.shape == old(tensor.shape))'),
     ],
     modifies=['tensor.val', 'ghost:trace', 'ghost:next_sid'],
